@@ -220,11 +220,13 @@ def _uses_a4(mod, all_obs=()):
         return False
 
 
-def lean_cross_check():
+def lean_cross_check(file=None):
     """Thorough tier only: lemmas/check_lean.sh compiles lemmas/real_analysis.lean (every A4 schema proved from Mathlib,
-    no sorry / extra axioms, Python schema text quoted in the Lean file).  Run once per process.
+    no sorry / extra axioms, Python schema text quoted in the Lean file) or, with `file`, another lemma file under lemmas/
+    (no schema drift guard for those: they state the lemma in mathematical form).  Run once per process and file.
     Returns dict(theorems, status, seconds[, detail])."""
-    if "r" not in _LEAN_RESULT:
+    key = file or "r"
+    if key not in _LEAN_RESULT:
         import re
         import subprocess
 
@@ -232,7 +234,9 @@ def lean_cross_check():
         script = os.path.join(ROOT, "lemmas", "check_lean.sh")
         res = dict(theorems=0, status="fail", seconds=0.0)
         try:
-            p = subprocess.run(["bash", script], capture_output=True, text=True, timeout=int(os.environ.get("LEAN_TIMEOUT", "1500")) + 60)
+            cmd = ["bash", script] + ([os.path.join(ROOT, "lemmas", file)] if file else [])
+            env = dict(os.environ, A4_DRIFT="0") if file else None
+            p = subprocess.run(cmd, capture_output=True, text=True, env=env, timeout=int(os.environ.get("LEAN_TIMEOUT", "1500")) + 60)
             out = (p.stdout or "") + (p.stderr or "")
             m = re.search(r"LEAN-CROSS-CHECK status=(\w+) theorems=(\d+)", out)
             if m:
@@ -244,8 +248,8 @@ def lean_cross_check():
         except Exception as e:  # missing bash / lean, timeout, ...
             res["detail"] = f"{type(e).__name__}: {e}"
         res["seconds"] = round(time.time() - t0, 1)
-        _LEAN_RESULT["r"] = res
-    return _LEAN_RESULT["r"]
+        _LEAN_RESULT[key] = res
+    return _LEAN_RESULT[key]
 
 
 def _model_eval(m):
@@ -334,6 +338,7 @@ def _verify_one(args):
         obs, outcomes = con.verify(reg)
         out["outcomes"] = [list(o) if isinstance(o, tuple) else o for o in outcomes]
         out["inlined"] = sorted(con.inline)
+        out["used_rowmajor"] = bool(getattr(con, "used_rowmajor", False))
         q, th = _timeouts(tier)
         seen_names = {}
         names = []
@@ -580,6 +585,16 @@ def run_property(pid, tier="quick", seed=0, update_baseline=False, jobs=None):
         lean = lean_cross_check()
         if lean["status"] != "ok":
             faults.append(f"lean cross-check of the A4 lemma schemas failed (lemmas/check_lean.sh): {str(lean.get('detail', ''))[-600:]}")
+    # further lemma files named by the module (LEAN_FILES = ["discrete.lean"]): discrete schemas the contracts rely on
+    lean_extra = {}
+    if tier == "thorough" and os.environ.get("VERIF_LEAN", "1") == "1":
+        lean_files = list(getattr(mod, "LEAN_FILES", ()))
+        if any(r.get("used_rowmajor") for r in results) and "discrete.lean" not in lean_files:
+            lean_files.append("discrete.lean")  # the row-major axioms were assumed on some path
+        for lf in lean_files:
+            lean_extra[lf] = lean_cross_check(lf)
+            if lean_extra[lf]["status"] != "ok":
+                faults.append(f"lean check of lemmas/{lf} failed (lemmas/check_lean.sh): {str(lean_extra[lf].get('detail', ''))[-600:]}")
     selftest_failed = bool(selftest and selftest.get("disagreements"))
     if selftest_failed:
         # the engine's encoding of Python / numpy / torch semantics disagrees with CPython: a checker fault, never a VIOLATION
@@ -682,6 +697,7 @@ def run_property(pid, tier="quick", seed=0, update_baseline=False, jobs=None):
             undecided=undecided, checker_faults=faults,
             **({"engine_selftest": selftest} if selftest is not None else {}),
             **({"lean_cross_check": {k: lean[k] for k in ("theorems", "status", "seconds")}} if lean is not None else {}),
+            **({"lean_lemma_files": {f: {k: r[k] for k in ("theorems", "status", "seconds")} for f, r in lean_extra.items()}} if lean_extra else {}),
         ),
         assumptions=list(getattr(mod, "ASSUMPTIONS", [])),
         wall_s=round(wall, 2), violations=len(violations),
